@@ -225,9 +225,12 @@ def _tdenum_members(tdname):
     return [[tdname.upper() + '_A', 0], [tdname.upper() + '_B', 1]]
 
 
-def cdef_of(context):
+def cdef_of(context, for_c=False):
     """The cdef text of a context (canonical spelling; the cdef is parsed by
-    the Python parser for both FFIs)."""
+    the Python parser for both FFIs).  With for_c=True the same declarations
+    as a C compiler needs them: 'static const int K = v;' becomes an
+    enumerator, because C does not accept such an object as an array length
+    at file scope."""
     info = Info({'decls': []})
     lines = []
     done = set()
@@ -255,7 +258,7 @@ def cdef_of(context):
             name, value, style = d[1:4]
             if style == 'define':
                 lines.append('#define %s %d' % (name, value))
-            elif style == 'static':
+            elif style == 'static' and not for_c:
                 lines.append('static const int %s = %d;' % (name, value))
             else:
                 lines.append('enum { %s = %d };' % (name, value))
@@ -430,7 +433,7 @@ def gen_tree(R, info, depth, want='object', valid=True, exotic=False):
         if sub == 0:
             return ['ptr', gen_func(R, info, depth - 1, valid)]
         return ['ptr', gen_tree(R, info, depth - 1, want='any' if sub == 1 else 'object', valid=valid, exotic=exotic)]
-    if c <= 7:
+    if c <= 7 and not (valid and want == 'result'):        # a function cannot return an array
         item = gen_tree(R, info, depth - 1, want='complete', valid=valid, exotic=exotic)
         allow_open = want in ('any', 'object') or not valid
         return ['arr', gen_len(R, info, allow_open=allow_open, exotic=exotic), item]
